@@ -6,6 +6,7 @@ import (
 	"go/token"
 	"go/types"
 	"golang.org/x/tools/go/ssa"
+	"os"
 	"sort"
 	"strings"
 )
@@ -478,45 +479,77 @@ func ruleNumParse(c *Ctx) {
 		}
 		return true
 	})
+	// the recogniser evaluated for "strconv.ParseFloat reported a range error" (no underscore, no exponent
+	// letter in the text): every path must accept (return a nil error)
 	recAccepts := false
-	var parsePos token.Pos
-	ast.Inspect(rec.Body, func(n ast.Node) bool {
-		if call, ok := n.(*ast.CallExpr); ok {
-			if se, ok := call.Fun.(*ast.SelectorExpr); ok && se.Sel.Name == "ParseFloat" && parsePos == token.NoPos {
-				parsePos = call.Pos()
+	if sf, ipkg := c.ssaFunc("interp", "parseFloat"), c.ssaPkg("interp"); sf != nil && ipkg != nil {
+		e := &sengine{pkg: ipkg}
+		e.call = func(p *spath, fr *sframe, call *ssa.Call, callee *ssa.Function, args []iv) (iv, callAction) {
+			fo := calleeObj(call)
+			if fo == nil {
+				return iv{}, callDefault
 			}
-		}
-		is, ok := n.(*ast.IfStmt)
-		if !ok || parsePos == token.NoPos || is.Pos() < parsePos {
-			return true
-		}
-		mentions := false
-		ast.Inspect(is.Cond, func(m ast.Node) bool {
-			if se, ok := m.(*ast.SelectorExpr); ok && se.Sel.Name == "ErrRange" {
-				mentions = true
+			switch funcFullName(fo) {
+			case "strconv.ParseFloat":
+				return ivTuple(ivSym("n"), ivSym("err")), callHandled
+			case "strings.IndexByte", "strings.IndexRune", "strings.Index", "strings.IndexAny":
+				return ivInt(-1), callHandled
+			case "strings.ContainsRune", "strings.Contains", "strings.ContainsAny":
+				return ivBool(false), callHandled
 			}
-			return true
-		})
-		if is.Init != nil {
-			ast.Inspect(is.Init, func(m ast.Node) bool {
-				if se, ok := m.(*ast.SelectorExpr); ok && se.Sel.Name == "ErrRange" {
-					mentions = true
-				}
-				return true
-			})
+			return iv{}, callDefault
 		}
-		if !mentions {
-			return true
-		}
-		for _, st := range is.Body.List {
-			if as, ok := st.(*ast.AssignStmt); ok && len(as.Lhs) == 1 && len(as.Rhs) == 1 && isIdent(as.Rhs[0], "nil") {
-				if t := info.TypeOf(as.Lhs[0]); t != nil && t.String() == "error" {
-					recAccepts = true
+		e.typeAssert = func(fr *sframe, x *ssa.TypeAssert, v iv) (iv, bool) {
+			if v.k == 's' && v.s == "err" {
+				if nm := named(deref(x.AssertedType)); nm != nil && nm.Obj().Name() == "NumError" {
+					if x.CommaOk {
+						return ivTuple(ivSym("numErr"), ivBool(true)), true
+					}
+					return ivSym("numErr"), true
 				}
 			}
+			return iv{}, false
 		}
-		return true
-	})
+		e.load = func(p *spath, fr *sframe, addr iv, in *ssa.UnOp) (iv, bool) {
+			if addr.k == 'p' && addr.s == "numErr.Err" {
+				return ivSym("ErrRange"), true
+			}
+			if g, ok := in.X.(*ssa.Global); ok && g.Name() == "ErrRange" {
+				return ivSym("ErrRange"), true
+			}
+			return iv{}, false
+		}
+		e.binop = func(op token.Token, a, b iv) (iv, bool) {
+			if op != token.EQL && op != token.NEQ {
+				return iv{}, false
+			}
+			switch {
+			case a.k == 's' && b.k == 's':
+				return ivBool((a.s == b.s) == (op == token.EQL)), true
+			case (a.k == 's' && b.k == 'n') || (a.k == 'n' && b.k == 's'):
+				return ivBool(op == token.NEQ), true // a symbol stands for a non-nil value
+			}
+			return iv{}, false
+		}
+		e.enter = func(callee *ssa.Function, args []iv) bool { return false }
+		e.startAt(sf, sf.Blocks[0], nil)
+		n, good := 0, true
+		for _, o := range e.outcomes {
+			if o.panicked {
+				continue
+			}
+			n++
+			if !(o.ret.k == 'u' && len(o.ret.tup) == 2 && o.ret.tup[1].k == 'n') {
+				good = false
+			}
+		}
+		recAccepts = n > 0 && good && len(e.problems) == 0
+		if os.Getenv("SVERIF_DEBUG") != "" {
+			for _, o := range e.outcomes {
+				fmt.Printf("DEBUG numparse outcome: panicked=%v ret=%+v problems=%v\n", o.panicked, o.ret, e.problems)
+			}
+		}
+	}
 	c.check(!convDiscards || recAccepts, "numparse:range", rec.Pos(),
 		"a value out of float64's range is a number (infinity) on both sides",
 		"parseFloatPrefix turns an out-of-range numeral into infinity (it discards ParseFloat's error) but parseFloat rejects it (no branch clears the error when it is strconv.ErrRange): the field 1e400 compares as a string yet is inf in arithmetic")
